@@ -339,6 +339,13 @@ func (r *Runner) convert(st *State, v Val, dst types.Type, pos token.Pos, instr 
 		if dlo.Cmp(slo) <= 0 && dhi.Cmp(shi) >= 0 {
 			return Val{T: dst, C: v.C}
 		}
+		if r.curSpec != nil && r.curSpec.Lossless && len(st.frames) == 1 {
+			label := shortType(dst) + "(_)"
+			if cv, ok := instr.(*ssa.Convert); ok {
+				label = exprText(st.top().fn, cv)
+			}
+			r.oblige(st, "lossless", label, And(Le(BigLit(dlo), v.C[0]), Le(v.C[0], BigLit(dhi))), pos)
+		}
 		return Val{T: dst, C: []Term{st.define("conv", wrapInt(v.C[0], dst))}}
 	case sInt && isFloat(dst):
 		return Val{T: dst, C: []Term{uf("i2f", SInt, v.C[0])}}
